@@ -119,6 +119,8 @@ pub fn scan_moves() -> Vec<Move> {
 pub struct ScanStats {
     pub programs: u64,
     pub calls: u64,
+    pub leaves: u64,
+    pub distinct_read_states: u64,
     pub outcomes: HashSet<u64>,
 }
 
@@ -141,15 +143,33 @@ pub fn check_scans(
         } else {
             len_rest
         };
+        // (1) every program of length <= 2 from a fresh cursor (this includes programs that
+        // begin with next/prev on the just-opened scan)
         let mut mk = || st.scan(bi);
-        let (p, c, fail) = check_all_programs(
-            &mut mk,
-            &reference,
-            &moves,
-            len,
-            false,
-            &mut stats.outcomes,
-        );
+        let (mut p, mut c, mut fail) =
+            check_all_programs(&mut mk, &reference, &moves, 2.min(len), false, &mut stats.outcomes);
+        // (2) every program of length <= len that begins with an absolute positioning call,
+        // chained on one cursor
+        if fail.is_none() {
+            match st.scan(bi) {
+                Err(e) => {
+                    fail = Some(crate::refcursor::ProgramFailure { program: vec![], expected: None, got: Err(e) });
+                }
+                Ok(mut cur) => {
+                    let (p2, c2, f2) = crate::refcursor::check_chained_programs(
+                        &mut *cur,
+                        &reference,
+                        &moves,
+                        len,
+                        false,
+                        &mut stats.outcomes,
+                    );
+                    p += p2;
+                    c += c2;
+                    fail = f2;
+                }
+            }
+        }
         stats.programs += p;
         stats.calls += c;
         if let Some(f) = fail {
